@@ -11,6 +11,7 @@
   no `_partial` theorem and no known finding for C17.
 -/
 import Gts.Lemmas.Fasta
+import Gts.Bridge.FastaWrite
 namespace Gts.C17
 open Gts Gts.Pars Gts.Fasta
 
@@ -263,5 +264,36 @@ example : resOk [65, 13] = false ∧
 /-- non-vacuity at an exact multiple of the width, CRLF, two full lines: 140 residues -/
 example : scanAll false (crlf (writeAll [([97], List.replicate 140 65)])) =
     .done [([97], List.replicate 140 65)] true := by decide +kernel
+
+/-! ### the REGENERATED writer (go2lean gwriter: `Gts/Gen/FastaWrite.lean`, `Gts/Gen/GbFields.lean`, `Gts/Bridge/FastaWrite.lean`)
+
+The round trip restated for `Fasta.WriteTo`, `FastaWriter.WriteSeq` and `GenBankFields.String` as they are re-read
+from seqio/fasta.go and seqio/genbank.go on every run (`wrap.Force` = the model's `wrapForce`, `%d` = `itoaBytes`). -/
+
+/-- **Write, then parse, one record — the code of the tree.**  `FastaParser` applied to the text the
+regenerated `Fasta.WriteTo` hands to its writer, followed by nothing or by the next record, returns exactly
+`(d, r)` and stops in front of what follows. -/
+theorem gen_parse_write_one (d r rest : Bytes) (stk : List Bytes)
+    (hd : descOk d = true) (hr : resOk r = true) (hrest : recEnd rest = true) :
+    fastaParse.run' ⟨Gen.FastaWrite.fastaWriteTo Bridge.wrapForceModel { Desc := d, Data := r } ++ rest, stk⟩ =
+      (.ok (d, r), ⟨rest, stk⟩) := by
+  rw [Bridge.fastaWriteTo_eq]
+  exact parse_write_one d r rest stk hd hr hrest
+
+/-- **GenBank → FASTA — the code of the tree.**  A sequence whose metadata is a `GenBankFields` value (a
+`fmt.Stringer`), handed to the regenerated `FastaWriter.WriteSeq` with the regenerated `String()`, is written
+as one FASTA record that both scanners read back as (description with line feeds as blanks, residues). -/
+theorem gen_genbank_to_fasta (auto : Bool) (gbf : Gen.GbFields.GenBankFields) (bytes : Bytes)
+    (hd : noCR (Gen.GbFields.genBankFieldsString itoaBytes gbf) = true) (hr : resOk bytes = true) :
+    ∃ text, Gen.FastaWrite.fastaWriterWriteSeq Bridge.wrapForceModel
+        (.other (.stringer (Gen.GbFields.genBankFieldsString itoaBytes gbf)) bytes) = some text ∧
+      scanAll auto text = .done [(nl2sp (Gen.GbFields.genBankFieldsString itoaBytes gbf), bytes)] true := by
+  rw [Bridge.fastaWriterWriteSeq_genbank]
+  rw [Bridge.genBankFieldsString_eq] at hd ⊢
+  exact genbank_to_fasta auto gbf.Version gbf.Definition bytes gbf.Region hd hr
+
+/-- non-vacuity: a description on one line, residues without `>`, the next record behind; a sliced record -/
+example : descOk [105, 100] = true ∧ resOk (List.replicate 71 65) = true ∧ recEnd [62, 120, 10] = true ∧
+    noCR (fastaDescOfGenBank [86] [100, 10, 101] (some (2, 9))) = true := by decide +kernel
 
 end Gts.C17
